@@ -135,13 +135,13 @@ func (i *Instance) Connector(_ context.Context, dispenserFetcher PluginDispenser
 		return &Source{
 			Instance:  i,
 			dispenser: pluginDispenser,
-			errs:      make(chan error),
+			errs:      make(chan error, 1), // buffered, see reportAsyncError
 		}, nil
 	case TypeDestination:
 		return &Destination{
 			Instance:  i,
 			dispenser: pluginDispenser,
-			errs:      make(chan error),
+			errs:      make(chan error, 1), // buffered, see reportAsyncError
 		}, nil
 	default:
 		return nil, ErrInvalidConnectorType
